@@ -4,9 +4,9 @@
 # builds, the existing test suite (minus cmd/templ/lspcmd, which needs gopls) passes, demo fails with the patch.
 # On success stores /verif/seeded/<Cxx>-<k>/{patch.diff,demo/,meta.json}.
 P="$1"; K="$2"; DEMO="$3"
-W=/tmp/wt-$P; M=$W/mutants/$K
+W=/tmp/${WT:-wt}-$P; M=$W/mutants/$K; SK=$((K+${KOFF:-0}))
 export GOFLAGS=-mod=mod GOPROXY=off GOSUMDB=off GOTOOLCHAIN=local
-log=/tmp/confirm-$P-$K.log; : > $log
+log=/tmp/confirm-${WT:-wt}-$P-$K.log; : > $log
 cd $W || exit 9
 git checkout -q -- . ; git clean -fdq -e mutants
 echo "[clean demo]" >> $log; (eval "$DEMO") >> $log 2>&1; clean_rc=$?
@@ -28,7 +28,7 @@ echo "[patched demo]" >> $log; (eval "$DEMO") >> $log 2>&1; pat_rc=$?
 git checkout -q -- . ; git clean -fdq -e mutants
 status="clean_demo=$clean_rc build=$build_rc suite=$suite_rc patched_demo=$pat_rc"
 if [ $clean_rc -eq 0 ] && [ $build_rc -eq 0 ] && [ $suite_rc -eq 0 ] && [ $pat_rc -ne 0 ]; then
-  d=/verif/seeded/$P-$K; rm -rf $d; mkdir -p $d
+  d=/verif/seeded/$P-$SK; rm -rf $d; mkdir -p $d
   cp $M/patch.diff $d/; cp -r $M/demo $d/demo
   python3 - "$M/meta.json" "$d/meta.json" "$DEMO" "$status" <<'PY'
 import json,sys
@@ -37,7 +37,7 @@ m['confirmed_by_lead']={'demo_command_from_worktree_root':sys.argv[3],'result':s
   'ran':'clean checkout: demo exit 0; git apply patch.diff; go build ./...; go test -count=1 on every package except cmd/templ/lspcmd (needs gopls; fails on the unchanged tree too), one retry for timing-flaky packages; runtime/fuzzing tests; demo exit non-zero; worktree restored'}
 json.dump(m,open(sys.argv[2],'w'),indent=1)
 PY
-  echo "RESULT $P-$K CONFIRMED $status"
+  echo "RESULT $P-$SK CONFIRMED $status"
 else
   echo "RESULT $P-$K NOT-CONFIRMED $status (see $log)"
 fi
